@@ -189,8 +189,11 @@ class BaseClient:
         variables: Dict[str, Any],
         **kwargs: Any,
     ) -> httpx.Response:
-        headers: Dict[str, str] = {"Content-Type": "application/json"}
-        headers.update(kwargs.get("headers", {}))
+        caller_headers: Dict[str, str] = kwargs.get("headers", {})
+        headers: Dict[str, str] = {}
+        if not any(name.lower() == "content-type" for name in caller_headers):
+            headers["Content-Type"] = "application/json"
+        headers.update(caller_headers)
 
         merged_kwargs: Dict[str, Any] = kwargs.copy()
         merged_kwargs["headers"] = headers
